@@ -4,7 +4,7 @@ from harness import tlc, hostrun
 
 OWN = {"C10": {"onlyappend", "complete", "rewritten", "toldwhy", "allowed", "notraceback"},
        "C09": {"preserves", "happens", "sniff", "allowed"},
-       "C15": {"capacity"},
+       "C15": {"capacity", "construct"},
        "C11": {"newpath"}, "C16": {"newpath"}}
 # "allowed" (the table) is reported under the property whose cell it is: decided per item below
 
@@ -21,6 +21,12 @@ def gates(ctx, thorough):
 
 
 def judge(ctx, name, recs, t0, own=None):
+    broken = [r for r in recs if r.get("construct_error")]
+    for r in (broken if "construct" in (own or OWN[ctx.prop]) else []):
+        # the tool itself could not store files that fit on the medium while the harness built the initial content
+        ctx.report({"clause": "construct", "class": {"pre": r["init"]["kind"], "nfiles": len(r["init"]["files"])}, "symptom": {"why": r["construct_error"].split(":")[0]}},
+                   {"kind": "host", "init": r["init"], "error": r["construct_error"]})
+    recs = [r for r in recs if not r.get("construct_error")]
     verd, st = tlc.bulk("Tr_Host", recs, nproc=6, min_chunk=30, heap="6g", timeout=3000)
     own = own or OWN[ctx.prop]
     nv = nsteps = 0
